@@ -304,7 +304,8 @@ pub fn main(args: &Args) {
     let strategies = [AllocationStrategy::BestFit, AllocationStrategy::PowerOfTwo, AllocationStrategy::Static];
     for run in 0..scenarios {
         let strategy = strategies[(run % 3) as usize];
-        let palign = *rng.pick(&[1usize, 8, 64, 256]);
+        // every strategy meets every payload alignment (the first rounds use the large ones)
+        let palign = [64usize, 256, 8, 1][((run / 3) % 4) as usize];
         scenario(&node, &mut w, run, &mut rng, strategy, palign, steps, &mut summary);
     }
     w.flush();
